@@ -1057,16 +1057,17 @@ Section TableProofs.
     match o with
     | TOSet n _ _ _ _ _ | TOGet n _ _ | TOUnload n => In n K
     | TOReopen mx => 0 <= mx
+    | TOModify _ _ => True
     end.
 
   Notation TRel := (Rel frame K).
 
   Lemma tbl_step_refines s sp o : Inv frame fmem K s -> TRel s sp -> top_ok o ->
-    exists s' x, tbl_step flen fmem dirsize true true s o = (s', x) /\
+    exists s' x, tbl_step flen fmem dirsize true true true s o = (s', x) /\
                  tspec_step flen sp o = (fst (tspec_step flen sp o), x) /\
                  Inv frame fmem K s' /\ TRel s' (fst (tspec_step flen sp o)).
   Proof.
-    intros I [Rm Rf] Hok. destruct o as [n new t1 t2 ch1 ch2|n t ch|n|mx]; cbn [tbl_step tspec_step top_ok] in *.
+    intros I [Rm Rf] Hok. destruct o as [n new t1 t2 ch1 ch2|n t ch|n|mx|n f]; cbn [tbl_step tspec_step top_ok] in *.
     - unfold tbl_set.
       destruct (get_inv frame flen fmem dirsize Hfm K s n t1 ch1 I Hok) as (s1 & Hg & I1 & Hd1 & Hm1).
       rewrite Hg. rewrite (Rf n Hok), <- Rm.
@@ -1111,25 +1112,26 @@ Section TableProofs.
     - exists (reopen frame s mx), TNone. cbn [fst]. split; [reflexivity|]. split; [reflexivity|].
       split; [apply open_inv; [exact (inv_disk _ _ _ _ I) | exact Hok]|].
       split; [reflexivity | intros k Hk; apply Rf; exact Hk].
+    - exists s, TNone. cbn [fst]. split; [reflexivity|]. split; [reflexivity|]. split; [exact I|]. split; assumption.
   Qed.
 
   (* T16.table over histories: the table store is a dictionary whose set is the documented merge *)
   Theorem tbl_run_refines : forall ops s sp, Inv frame fmem K s -> TRel s sp -> Forall top_ok ops ->
-    snd (tbl_run flen fmem dirsize true true s ops) = snd (tspec_run flen sp ops) /\
-    Inv frame fmem K (fst (tbl_run flen fmem dirsize true true s ops)).
+    snd (tbl_run flen fmem dirsize true true true s ops) = snd (tspec_run flen sp ops) /\
+    Inv frame fmem K (fst (tbl_run flen fmem dirsize true true true s ops)).
   Proof.
     induction ops as [|o ops IH]; intros s sp I R Hok; [simpl; auto|].
     inversion Hok as [|? ? Ho Hops]; subst.
     destruct (tbl_step_refines s sp o I R Ho) as (s' & x & Hk & Hs & Hi & Hr).
     cbn [tbl_run tspec_run]. rewrite Hk, Hs.
     destruct (IH s' (fst (tspec_step flen sp o)) Hi Hr Hops) as (E1 & E2).
-    destruct (tbl_run flen fmem dirsize true true s' ops) as [s2 xs] eqn:Ek.
+    destruct (tbl_run flen fmem dirsize true true true s' ops) as [s2 xs] eqn:Ek.
     destruct (tspec_run flen (fst (tspec_step flen sp o)) ops) as [sp2 ys] eqn:Es.
     cbn [fst snd] in *. subst ys. auto.
   Qed.
 
   Theorem tbl_fresh_refines mx ops : 0 <= mx -> Forall top_ok ops ->
-    snd (tbl_run flen fmem dirsize true true (open_cache frame [] mx) ops)
+    snd (tbl_run flen fmem dirsize true true true (open_cache frame [] mx) ops)
     = snd (tspec_run flen (mkS frame [] (norm_max mx)) ops).
   Proof.
     intros Hmx Hok. apply (tbl_run_refines ops (open_cache frame [] mx) (mkS frame [] (norm_max mx))); [| |exact Hok].
@@ -1171,11 +1173,11 @@ Lemma sessions_flag (ou pu b : bool) : ou = true -> pu = true -> b = true ->
   snd (sessions_run C clen cmem dirsize ou pu b d0 ss) = snd (spec_sessions C clen m0 ss).
 Proof. intros -> -> ->. exact sessions_refine. Qed.
 
-Lemma table_flag (ou pu : bool) : ou = true -> pu = true ->
+Lemma table_flag (ou pu cp : bool) : ou = true -> pu = true -> cp = true ->
   forall (flen fmem : frame -> Z) (dirsize : Z), (forall f, 0 <= fmem f) ->
   forall K, prefix_free K -> forall mx ops, 0 <= mx -> Forall (top_ok K) ops ->
-  snd (tbl_run flen fmem dirsize ou pu (open_cache frame [] mx) ops) = snd (tspec_run flen (mkS frame [] (norm_max mx)) ops).
-Proof. intros -> ->. exact tbl_fresh_refines. Qed.
+  snd (tbl_run flen fmem dirsize ou pu cp (open_cache frame [] mx) ops) = snd (tspec_run flen (mkS frame [] (norm_max mx)) ops).
+Proof. intros -> -> ->. exact tbl_fresh_refines. Qed.
 
 Lemma merge_flag (b : bool) : b = true -> forall old new i,
   first_row i (merge_frames old new) = match first_row i old with Some v => Some v | None => first_row i new end.
